@@ -88,6 +88,8 @@ type Stats struct {
 	SolverErrors []string
 	AltQueries   int
 	AltDecided   int
+	FoldedAsserts int // assertions reached whose condition had been reduced to true by term rewriting
+	PathsSymbolic int // completed paths whose path condition constrains at least one symbolic input
 }
 
 type Shared struct {
@@ -939,6 +941,8 @@ func (in *Interp) flushStats() {
 		st.MaxPC = in.local.MaxPC
 	}
 	st.PathsOK += in.local.PathsOK
+	st.FoldedAsserts += in.local.FoldedAsserts
+	st.PathsSymbolic += in.local.PathsSymbolic
 	st.AltQueries += in.local.AltQueries
 	st.AltDecided += in.local.AltDecided
 	for k := range in.local.NontrivialOb {
@@ -983,6 +987,9 @@ func (in *Interp) runPath(entry *ssa.Function, prefix []decision) {
 		return
 	}
 	in.local.PathsOK++
+	if len(in.pc) > 0 && len(in.inputs) > 0 {
+		in.local.PathsSymbolic++
+	}
 	// keep a few witnesses of completed paths
 	in.Sh.mu.Lock()
 	need := len(in.Sh.Samples) < 3
